@@ -28,18 +28,38 @@ fn parse_entries(s: &str) -> Option<Vec<(String, Vec<i32>, String)>> {
 pub fn run(toks: &[&str], fails: &mut Vec<(String, String)>) -> String {
     let c19 = toks.last() == Some(&"c19");
     match toks {
-        ["RD", m, entries, text, ..] => {
+        ["RD", m, entries, text, rest @ ..] => {
             let (Some(m), Some(entries), Some(text)) = (AbsModel::parse(m), parse_entries(entries), unhexs(text)) else { return "bad-case".into() };
-            let r = catch(|| {
-                let mut model = m.load().map_err(|_| "err:model".to_string())?;
+            // `pre`: the model has already been serialised once before its dictionary is replaced; `rd`: it was read with `Model::read`
+            let (pre, via_read) = (rest.contains(&"pre"), rest.contains(&"rd"));
+            let prop = if toks.last() == Some(&"c07") { "C07" } else { "C19" };
+            let mut differs: Option<String> = None;
+            let r = catch(std::panic::AssertUnwindSafe(|| {
+                let mut model = if via_read { vaporetto::Model::read(&m.to_bytes()[..]).map_err(|_| "err:model".to_string())? } else { m.load().map_err(|_| "err:model".to_string())? };
+                if pre {
+                    let _ = model.to_vec().map_err(|_| "err:encode-before".to_string())?;
+                }
                 let mut recs = vec![];
                 for (w, ws, c) in &entries {
                     recs.push(WordWeightRecord::new(w.clone(), ws.clone(), c.clone()).map_err(|_| "err:invalid_argument".to_string())?);
                 }
                 model.replace_dictionary(recs);
-                let bytes = model.to_vec().map_err(|_| "err:encode".to_string())?;
+                // every way of serialising the edited model gives the same bytes, the first time and again
+                let mut w = vec![];
+                let wr = model.write(&mut w).map_err(|_| "err:write".to_string());
+                let bytes = model.to_vec().map_err(|_| "err:encode".to_string());
+                let again = model.to_vec().map_err(|_| "err:encode-again".to_string());
+                match (&wr, &bytes, &again) {
+                    (Ok(()), Ok(b), Ok(a)) if *b == w && a == b => {}
+                    (Err(_), Err(_), Err(_)) => {}
+                    _ => differs = Some(format!("after replace_dictionary: write -> {:?} ({} bytes), to_vec -> {:?}, to_vec again -> {:?}", wr, w.len(), bytes.as_ref().map(|b| b.len()), again.as_ref().map(|b| b.len()))),
+                }
+                let bytes = bytes?;
                 Ok::<_, String>((bytes, model))
-            });
+            }));
+            if let Some(d) = differs {
+                fails.push((prop.into(), format!("the serialisers of one model disagree ({}{}dictionary of {} entries replaced by {} entries): {d}", if via_read { "read with Model::read, " } else { "read with read_slice, " }, if pre { "serialised once before, " } else { "" }, m.dict.len(), entries.len())));
+            }
             match r {
                 Ok(Ok((bytes, model))) => {
                     if c19 {
